@@ -14,7 +14,7 @@ All positions may be SymInt; membership tests fork through SymBool.__bool__.
 Contract (validated against real bytearray in selftest): Python slice normalisation, slice
 assignment with resize when lengths differ, concatenation, short slices past the end.
 """
-from symx.core import SymInt, is_sym, b_and, b_or, Unsupported, eng, mk
+from symx.core import SymInt, is_sym, b_and, b_or, Unsupported, eng, mk, fx
 import struct as _struct
 
 ZERO = ('zero',)
@@ -112,8 +112,8 @@ def norm_slice(k, n):
 
 class LazyBytes:
     def __init__(self, length, layers=None, mutable=False, default=ZERO):
-        self.length = length
-        self.layers = list(layers or [])
+        self.length = fx(length)
+        self.layers = [(fx(a), fx(b), c, fx(d)) for (a, b, c, d) in (layers or [])]
         self.mutable = mutable
         self.default = default
 
@@ -185,6 +185,7 @@ class LazyBytes:
             raise Unsupported("single byte assignment")
         v = LazyBytes.wrap(v).snapshot()
         a, cnt = norm_slice(k, self.length)
+        a, cnt = fx(a), fx(cnt)
         vl = v.length
         if cnt == vl:
             self.layers.append((a, vl, v, 0))
@@ -192,8 +193,8 @@ class LazyBytes:
         # bytearray semantics: the slice is replaced, the array is resized
         old = self.snapshot()
         tail = old.length - (a + cnt)
-        self.layers = [(0, a, old, 0), (a, vl, v, 0), (a + vl, tail, old, a + cnt)]
-        self.length = a + vl + tail
+        self.layers = [(0, a, old, 0), (a, vl, v, 0), (fx(a + vl), fx(tail), old, fx(a + cnt))]
+        self.length = fx(a + vl + tail)
 
     def __add__(self, o):
         o = LazyBytes.wrap(o).snapshot()
